@@ -181,7 +181,7 @@ def judge_build(case, v):
         else:
             # near the field limits the code may still refuse (rounding of the offsets); accept if some value is within 2 of a limit
             k = min(expected_ppem(cfg, imgs[0][1])) / cfg["upem"]
-            near = cfg["ascender"] * k > 125 or max(cfg["width"], emh * max(i[0] / i[1] for i in imgs)) * imgs[0][1] / emh > 252 or min(expected_ppem(cfg, imgs[0][1])) > 253
+            near = cfg["ascender"] * k > 125 or cfg["descender"] * k < -125 or max(cfg["width"], emh * max(i[0] / i[1] for i in imgs)) * imgs[0][1] / emh > 252 or min(expected_ppem(cfg, imgs[0][1])) > 253
             if near:
                 v.rejected = "near-limit:" + type(r.error).__name__
             else:
@@ -296,7 +296,7 @@ def judge_gaps(case, v):
     except Exception as e:
         if ok_repr:
             k = min(expected_ppem(cfg, res)) / cfg["upem"]
-            if cfg["ascender"] * k > 125 or max(cfg["width"], emh) * res / emh > 252 or min(expected_ppem(cfg, res)) > 253:
+            if cfg["ascender"] * k > 125 or cfg["descender"] * k < -125 or max(cfg["width"], emh) * res / emh > 252 or min(expected_ppem(cfg, res)) > 253:
                 v.rejected = "near-limit:" + type(e).__name__
             else:
                 v.fail("spurious-rejection", "gaps:" + type(e).__name__, {"error": repr(e)[:300], "cfg": cfg})
